@@ -389,7 +389,7 @@ def call_args_sig(call, drop_self, rkr=None):
             if isinstance(a, ast.Constant) and a.value is None:
                 sig.append("None")
             elif roots:
-                sig.append("+".join(sorted(roots)))
+                sig.append("Y" if "Y" in roots else "+".join(sorted(roots)))  # `Y = X if Y is None` is still the Y operand
             elif isinstance(a, ast.Name):
                 continue  # a flag or option handed through
             else:
@@ -397,6 +397,28 @@ def call_args_sig(call, drop_self, rkr=None):
         else:
             sig.append(txt)
     return tuple(sig)
+
+
+
+def _index_attrs(uni, mod, cls, rkr, idx, depth=3):
+    """self attributes that determine an index expression, followed through local index variables and
+    argument-less self helpers"""
+    out = set()
+    for x in ast.walk(idx):
+        if pf.is_self_attr(x) and isinstance(x.ctx, ast.Load):
+            par = pf.parent(x)
+            if isinstance(par, ast.Call) and par.func is x and not par.args and cls is not None:
+                r_ = uni.find_method(mod, cls, x.attr)
+                if r_ is not None and r_[0] is uni.km:
+                    out |= {y.attr for y in ast.walk(r_[2]) if pf.is_self_attr(y) and isinstance(y.ctx, ast.Load)
+                            and not (isinstance(pf.parent(y), ast.Call) and pf.parent(y).func is y)}
+                    continue
+            out.add(x.attr)
+        elif isinstance(x, ast.Name) and depth > 0 and x.id in rkr.defs and not rkr.role(x.id):
+            for st, val, tgt in rkr.defs[x.id]:
+                if not isinstance(st, ast.For) and not isinstance(tgt, ast.Subscript):
+                    out |= _index_attrs(uni, mod, cls, rkr, val, depth - 1)
+    return out
 
 
 def primitives(uni, mod, cls, fn, exprs, alias, pair_names):
@@ -408,6 +430,7 @@ def primitives(uni, mod, cls, fn, exprs, alias, pair_names):
     def add(sig, node):
         sigs.setdefault(sig, node)
 
+    sel_union, sel_node = {}, {}
     for root in exprs:
         for n in ast.walk(root):
             if isinstance(n, ast.Call):
@@ -466,15 +489,29 @@ def primitives(uni, mod, cls, fn, exprs, alias, pair_names):
                 kind = "broadcast-diff" if isinstance(n.op, ast.Sub) else "broadcast-prod"
                 add((kind, tuple(sorted([a, b]))), n)
             if isinstance(n, ast.Subscript) and isinstance(n.value, ast.Name) and rkr.role(n.value.id):
-                attrs = sorted({x.attr for x in ast.walk(n.slice) if pf.is_self_attr(x)})
+                # the selecting attributes, through index variables (`inds = slice(self.start, None)`) and private
+                # index helpers (`inds = self._get_inds()`)
+                attrs = sorted(_index_attrs(uni, mod, cls, rkr, n.slice) & (ctor or _index_attrs(uni, mod, cls, rkr, n.slice)))
                 if attrs:
-                    add(("select", rkr.role(n.value.id), tuple(attrs)), n)
+                    role = rkr.role(n.value.id)
+                    sel_union.setdefault(role, set()).update(attrs)
+                    sel_node.setdefault(role, n)
+            if isinstance(n, ast.Call) and isinstance(n.func, ast.Attribute) and isinstance(n.func.value, ast.Name) \
+                    and n.func.value.id == "self" and cls is not None and n.func.attr not in pair_names:
+                r_ = uni.find_method(mod, cls, n.func.attr)
+                if r_ is not None and r_[0] is uni.km and not n.args:
+                    # an argument-less private helper: the hyper-parameters it reads are read by this value too
+                    for x in ast.walk(r_[2]):
+                        if pf.is_self_attr(x) and isinstance(x.ctx, ast.Load) and x.attr in ctor:
+                            add(("hyper", x.attr), x)
             if pf.is_self_attr(n) and isinstance(n.ctx, ast.Load) and n.attr in ctor:
                 par = pf.parent(n)
                 called = isinstance(par, ast.Call) and par.func is n
                 holder = isinstance(par, ast.Attribute) and isinstance(pf.parent(par), ast.Call) and pf.parent(par).func is par
                 if not called and not holder:
                     add(("hyper", n.attr), n)
+    for role, attrs in sel_union.items():
+        add(("select", role, tuple(sorted(attrs))), sel_node[role])
     return sigs
 
 
